@@ -17,6 +17,7 @@ EXPLANATION = (
     "push, FIFO back-ends at the opposite end, and stealing uses the opposite end of the owner (R5). Not decided: "
     "linearizability of the deque; moodycamel's ConcurrentQueue (third party) is not analysed.")
 ASSUMPTIONS = ["std::atomic<range>::compare_exchange_weak is atomic on the 64-bit range word", "tagged_ptr_pair::cas is a 128-bit compare-exchange"]
+THOROUGH_CONFIGS = [["-UNDEBUG", "-DPIKA_DEBUG"]]
 FLOORS = {"C17.R1": 6, "C17.R2": 2, "C17.R3": 3, "C17.R4": 12, "C17.R5": 9}
 
 CIQ = "pika::concurrency::detail::contiguous_index_queue"
